@@ -44,6 +44,8 @@ type gnode struct {
 	alive bool
 	act   *cluster.NodeActor
 	ref   vivid.ActorRef
+	// periodic messages the node has registered with its scheduler
+	loopGossip, loopFD bool
 }
 
 type gmsg struct {
@@ -82,15 +84,34 @@ func (gsys) CreateRef(address, path string) (vivid.ActorRef, error) {
 	return actor.NewRef(address, path)
 }
 
-type gsched struct{ vivid.Scheduler }
+// gsched records which periodic messages the node has asked its scheduler for: the harness delivers a
+// GossipTick / FailureDetectionTick only to a node that registered the corresponding loop.
+type gsched struct {
+	vivid.Scheduler
+	n *gnode
+}
 
-func (gsched) Loop(vivid.ActorRef, time.Duration, vivid.Message, ...vivid.ScheduleOption) error {
+func (g gsched) Loop(_ vivid.ActorRef, _ time.Duration, m vivid.Message, _ ...vivid.ScheduleOption) error {
+	switch m.(type) {
+	case *cluster.GossipTick:
+		g.n.loopGossip = true
+	case *cluster.FailureDetectionTick:
+		g.n.loopFD = true
+	}
 	return nil
 }
-func (gsched) Once(vivid.ActorRef, time.Duration, vivid.Message, ...vivid.ScheduleOption) error {
+func (g gsched) Once(vivid.ActorRef, time.Duration, vivid.Message, ...vivid.ScheduleOption) error {
 	return nil
 }
-func (gsched) Cancel(string) error { return nil }
+func (g gsched) Cancel(ref string) error {
+	switch ref {
+	case cluster.SchedRefGossip:
+		g.n.loopGossip = false
+	case cluster.SchedRefFailureDetection:
+		g.n.loopFD = false
+	}
+	return nil
+}
 
 type ges struct{ vivid.EventStream }
 
@@ -101,7 +122,7 @@ func (c *gctx) Sender() vivid.ActorRef         { return c.sender }
 func (c *gctx) Ref() vivid.ActorRef            { return c.n.ref }
 func (c *gctx) Logger() log.Logger             { return log.NewSilentLogger() }
 func (c *gctx) System() vivid.ActorSystem      { return gsys{} }
-func (c *gctx) Scheduler() vivid.Scheduler     { return gsched{} }
+func (c *gctx) Scheduler() vivid.Scheduler     { return gsched{n: c.n} }
 func (c *gctx) EventStream() vivid.EventStream { return ges{} }
 func (c *gctx) MetricsEnabled() bool           { return false }
 func (c *gctx) Metrics() metrics.Metrics       { return nil }
@@ -267,6 +288,10 @@ func (e *gossipEngine) Exec(line string) (string, string) {
 		n := e.node(tk[len(tk)-1])
 		if len(tk) != 2 || n == nil || !n.alive {
 			return "bad-op", ""
+		}
+		// a periodic tick exists only if the node asked its scheduler for it
+		if (tk[0] == "tick" && !n.loopGossip) || (tk[0] == "fd" && !n.loopFD) {
+			return "not-scheduled", ""
 		}
 		switch tk[0] {
 		case "tick":
